@@ -3,6 +3,8 @@
 # development (full .vo build), the extracted model and its OCaml driver.
 set -e
 cd "$(dirname "$0")"
+python3 gen/scan_sites.py
+python3 gen/ast2coq.py
 cd coq
 coq_makefile -f _CoqProject -o Makefile
 timeout 3000 make -j16
